@@ -722,19 +722,24 @@ pub fn build_raw(lang: &Lang, events: &[Ev], crlf: bool) -> Built {
                 // A half-written look-alike whose quote is closed by a later quote of the same kind at a token
                 // boundary (followed by white space, `>` or the comment's end) could legitimately be read as a
                 // tag: defuse it by construction (same length, so no offset moves).
+                // (right to left: defusing a later look-alike changes which quote closes an earlier one)
+                let mut halves: Vec<(usize, usize)> = vec![];
                 for half in ["<block note=\"half written", "<block x='unfinished"] {
                     let mut from = cstart;
                     while let Some(p) = out[from..].find(half).map(|i| i + from) {
-                        let qpos = p + half.find(['"', '\'']).unwrap();
-                        let q = out.as_bytes()[qpos] as char;
-                        let ambiguous = match out[qpos + 1..].find(q).map(|i| i + qpos + 1) {
-                            None => false,
-                            Some(r) => out[r + 1..].chars().next().is_none_or(|c| c.is_whitespace() || c == '>'),
-                        };
-                        if ambiguous {
-                            out.replace_range(qpos..qpos + 1, "~");
-                        }
+                        halves.push((p, p + half.find(['"', '\'']).unwrap()));
                         from = p + half.len();
+                    }
+                }
+                halves.sort();
+                for &(_, qpos) in halves.iter().rev() {
+                    let q = out.as_bytes()[qpos] as char;
+                    let ambiguous = match out[qpos + 1..].find(q).map(|i| i + qpos + 1) {
+                        None => false,
+                        Some(r) => out[r + 1..].chars().next().is_none_or(|c| c.is_whitespace() || c == '>'),
+                    };
+                    if ambiguous {
+                        out.replace_range(qpos..qpos + 1, "~");
                     }
                 }
                 let cend = out.len();
